@@ -16,7 +16,8 @@ drv_registry ops (one history per line, one value out):
 Output: a tuple with one entry per d/c/s event,
   d:    ( alive ( reply? ) ( notes ) services )
   c, s: ( accepted elapsed tracked alive ( reply? ) ( notes ) services )
-note = ( I1|I0 name host port ) for added|removed; services = ( ( name ( ( host port I<t> ) .. ) ) .. ).
+note = ( I1|I0 name host port ) for added|removed; services = ( ( name ( ( host port I<t> ) .. ) ) .. ), or N
+when the event left the table exactly as it was.
 Processing stops after an event that does not leave the loop alive.  `not-modelled` if an event needs
 something the model does not have (a NaN inside a port, TAG_SLICE over a frozenset).
 -/
@@ -38,9 +39,10 @@ def mkEnv (hs : List Hint) : Env where
   lower := fun s => (hs.findSome? (fun h => match h with
     | .lower a b => if a = s then some b else none
     | _ => none)).getD poison
-  -- a frozenset without a hint is iterated in wire order (right for fewer than two distinct members)
+  -- hints are matched as sets (Python's ==); a frozenset without a hint is iterated in wire order, which the
+  -- harness relies on only where no code path iterates it
   fsetIter := fun xs => (hs.findSome? (fun h => match h with
-    | .fset a b => if Val.beqL a xs then some b else none
+    | .fset a b => if sortCodes (keyCodes a) = sortCodes (keyCodes xs) then some b else none
     | _ => none)).getD xs
 
 def parseHint : List String → Option (Hint × List String)
@@ -74,8 +76,10 @@ def noteVal : Note → Val
 def servicesVal (sv : Services) : Val :=
   .tuple (sv.map (fun e => .tuple [e.1, .tuple (e.2.map (fun x => .tuple [x.1.1, x.1.2, .int x.2]))]))
 
-def stepVals (s : Step) : List Val :=
-  [.bool s.alive, .tuple (match s.reply with | none => [] | some r => [r]), .tuple (s.notes.map noteVal), servicesVal s.sv]
+/-- the table is written out only when the event changed it (`N` otherwise) -/
+def stepVals (before : Services) (s : Step) : List Val :=
+  [.bool s.alive, .tuple (match s.reply with | none => [] | some r => [r]), .tuple (s.notes.map noteVal),
+   if Val.beq (servicesVal before) (servicesVal s.sv) then .none else servicesVal s.sv]
 
 /-- does this datagram make the code compare a key the model has no faithful code for -/
 def unmodelled (env : Env) (dgram : Bytes) : Bool :=
@@ -123,7 +127,7 @@ partial def simulate (mode : Mode) (pruning : Int) (fdLimit : Nat) (sim : Sim) :
             else
               let s := workStep env pruning sim.sv host dg sim.clock
               simulate mode pruning fdLimit
-                { sim with sv := s.sv, out := sim.out.push (.tuple (stepVals s)), dead := !s.alive } rest2
+                { sim with sv := s.sv, out := sim.out.push (.tuple (stepVals sim.sv s)), dead := !s.alive } rest2
     | _, _ => none
   | "c" :: peerTok :: hx :: rest =>
     match parseNatChars peerTok.toList, parseBytesTok hx, parseVal rest with
@@ -142,7 +146,7 @@ partial def simulate (mode : Mode) (pruning : Int) (fdLimit : Nat) (sim : Sim) :
               let r := tcpStep env pruning fdLimit ⟨sim.sv, sim.conn, sim.clock⟩ (.client peer host bs)
               simulate mode pruning fdLimit
                 { sim with sv := r.1.sv, conn := r.1.conn, clock := r.1.clock, dead := !r.2.step.alive,
-                           out := sim.out.push (.tuple ([.bool r.2.accepted, .int r.2.elapsed, .int r.1.conn.length] ++ stepVals r.2.step)) }
+                           out := sim.out.push (.tuple ([.bool r.2.accepted, .int r.2.elapsed, .int r.1.conn.length] ++ stepVals sim.sv r.2.step)) }
                 rest2
     | _, _, _ => none
   | "s" :: peerTok :: rest =>
@@ -154,7 +158,7 @@ partial def simulate (mode : Mode) (pruning : Int) (fdLimit : Nat) (sim : Sim) :
         let r := tcpStep (mkEnv []) pruning fdLimit ⟨sim.sv, sim.conn, sim.clock⟩ (.silent peer)
         simulate mode pruning fdLimit
           { sim with sv := r.1.sv, conn := r.1.conn, clock := r.1.clock,
-                     out := sim.out.push (.tuple ([.bool r.2.accepted, .int r.2.elapsed, .int r.1.conn.length] ++ stepVals r.2.step)) }
+                     out := sim.out.push (.tuple ([.bool r.2.accepted, .int r.2.elapsed, .int r.1.conn.length] ++ stepVals sim.sv r.2.step)) }
           rest
     | none => none
   | _ => none
